@@ -117,8 +117,15 @@ func c09Check(ctx *vfCtx, c c09Case) {
 	_ = refAllow
 	ch := &jseedChooser{c.Seed}
 	// repeated evaluation
-	if v, ok := eval("repeat", neededOnly); ok && v != base {
-		ctx.Fail("C09/not-repeatable", "two evaluations of the same (event, state) differ: %s then %s", base, v)
+	repeats := 1
+	if final.Type() == "m.room.power_levels" {
+		repeats = 8
+	}
+	for i := 0; i < repeats; i++ {
+		if v, ok := eval("repeat", neededOnly); ok && v != base {
+			ctx.Fail("C09/not-repeatable", "two evaluations of the same (event, state) differ: %s then %s; event=%s", base, v, c.Final.Event)
+			break
+		}
 	}
 	// insertion order
 	for i := 0; i < 3; i++ {
@@ -406,7 +413,14 @@ func c09Gen(t *rapid.T) c09Case {
 	np := rapid.IntRange(0, 3).Draw(t, "npad")
 	for i := 0; i < np; i++ {
 		var e raEv
-		switch rapid.IntRange(0, 2).Draw(t, "padKind") {
+		switch rapid.IntRange(0, 5).Draw(t, "padKind") {
+		case 3:
+			// a join-rules event whose content does not decode: un-needed by every non-member event
+			e = raEv{Type: "m.room.join_rules", Sender: c07Creator, StateKey: raSK(""), Content: rapid.SampledFrom([]jv{jobj("join_rule", jnum(5)), jobj("join_rule", jstr("restricted"), "allow", jstr("x")), jobj("join_rule", jv{K: 'o'})}).Draw(t, "padJR")}
+		case 4:
+			e = raEv{Type: "m.room.third_party_invite", Sender: c07Creator, StateKey: raSK("padtok"), Content: jobj("public_keys", jstr("x"), "public_key", jnum(1))}
+		case 5:
+			e = raEv{Type: "m.room.member", Sender: "@zed:z.example", StateKey: raSK("@zed:z.example"), Content: jobj("membership", jnum(5))}
 		case 0:
 			e = raEv{Type: "m.room.topic", Sender: c07Creator, StateKey: raSK(""), Content: jobj("topic", jstr("x"))}
 		case 1:
@@ -420,7 +434,135 @@ func c09Gen(t *rapid.T) c09Case {
 	return c
 }
 
+// c09PLCase: one power-levels event that edits several entries of one map at once; the verdict must
+// be the same on every evaluation (the rules range over maps, whose iteration order is random).
+type c09PLCase struct {
+	Version string    `json:"version"`
+	Room    []vfBytes `json:"room"`
+	Event   vfBytes   `json:"event"`
+	Edits   int       `json:"edits"`
+}
+
+func c09GenPL(t *rapid.T) c09PLCase {
+	version := evGenVersion(t)
+	sender := rapid.SampledFrom([]string{c07Alice, c07Bob}).Draw(t, "sender")
+	L := int64(rapid.SampledFrom([]int{50, 75, 100}).Draw(t, "L"))
+	users := map[string]int64{sender: L}
+	others := []string{c07Alice, c07Bob, c07Carol, "@dave:d.example", "@erin:e.example"}
+	for _, u := range others {
+		if u != sender && rapid.Bool().Draw(t, "has"+u) {
+			users[u] = int64(rapid.SampledFrom([]int{0, 25, 50, 75, 100}).Draw(t, "lvl"+u))
+		}
+	}
+	events := map[string]int64{"m.room.power_levels": rapid.SampledFrom([]int64{0, 50, L}).Draw(t, "plLevel"), "m.room.topic": 50, "a": 10, "b": 60}
+	notif := map[string]int64{"room": 50, "x": 10}
+	r := c07Room{Version: version, Members: map[string]string{c07Creator: "join", sender: "join"}, JoinRule: "public", HasPL: true}
+	r.PL = c07PLContent(users, map[string]int64{"users_default": 0, "state_default": 50, "events_default": 0}, events, notif)
+	b := c07Build(r)
+	c := c09PLCase{Version: version}
+	for _, a := range b.Auth {
+		c.Room = append(c.Room, vfBytes(jplain(a)))
+	}
+	// the edit: per map, each entry keeps its value, or moves to a level around L (legal or not)
+	move := func(label string, old int64) int64 {
+		switch rapid.IntRange(0, 5).Draw(t, label) {
+		case 0:
+			return L - 1
+		case 1:
+			return L + 1
+		case 2:
+			return 0
+		case 3:
+			return L
+		}
+		return old
+	}
+	nu, ne, nn := map[string]int64{}, map[string]int64{}, map[string]int64{}
+	for _, u := range append([]string{sender}, others...) {
+		if old, ok := users[u]; ok {
+			nu[u] = move("mu"+u, old)
+			if nu[u] != old {
+				c.Edits++
+			}
+		} else if u != sender && rapid.IntRange(0, 3).Draw(t, "add"+u) == 0 {
+			nu[u] = move("au"+u, 0)
+			c.Edits++
+		}
+	}
+	for _, k := range []string{"m.room.power_levels", "m.room.topic", "a", "b"} {
+		ne[k] = move("me"+k, events[k])
+		if ne[k] != events[k] {
+			c.Edits++
+		}
+	}
+	for _, k := range []string{"room", "x"} {
+		nn[k] = move("mn"+k, notif[k])
+		if nn[k] != notif[k] {
+			c.Edits++
+		}
+	}
+	e := raEv{Type: "m.room.power_levels", Sender: sender, StateKey: raSK(""), Room: b.RoomID, Depth: 50, TS: 5000, Prev: []string{b.CreateID}, ID: "$c09pl:a.example"}
+	e.Content = c07PLContent(nu, map[string]int64{"users_default": 0, "state_default": 50, "events_default": 0}, ne, nn)
+	c.Event = vfBytes(jplain(raJSON(version, e)))
+	return c
+}
+
+func c09CheckPL(ctx *vfCtx, c c09PLCase) {
+	var state []PDU
+	for _, raw := range c.Room {
+		t, err := evTree(raw)
+		if err != nil {
+			ctx.Unjudged("generator: malformed event")
+			return
+		}
+		p, err := raParsePDU(c.Version, t)
+		if err != nil {
+			ctx.Unjudged("generator: " + err.Error())
+			return
+		}
+		state = append(state, p)
+	}
+	t, err := evTree(c.Event)
+	if err != nil {
+		ctx.Unjudged("generator: malformed event")
+		return
+	}
+	final, err := raParsePDU(c.Version, t)
+	if err != nil {
+		ctx.Unjudged("generator: " + err.Error())
+		return
+	}
+	if c.Edits >= 2 {
+		ctx.NonTrivial()
+	}
+	ctx.Class(fmt.Sprintf("edits=%d", min(c.Edits, 6)))
+	first := ""
+	for i := 0; i < 12; i++ {
+		var verr error
+		if vfCatch(ctx, "C09/pl-repeat", func() {
+			var prov *AuthEvents
+			prov, verr = NewAuthEvents(state)
+			if verr == nil {
+				verr = Allowed(final, prov, vfUserIDForSender)
+			}
+		}) {
+			return
+		}
+		v := c09Verdict(verr)
+		if i == 0 {
+			first = v
+			ctx.Class("verdict/" + v)
+		} else if v != first {
+			ctx.Fail("C09/not-repeatable/power-levels", "evaluation %d of the same power-levels event against the same state is %s, the first was %s; event=%s", i+1, v, first, c.Event)
+			return
+		}
+	}
+}
+
 func init() {
+	vfRapid("C09/power-levels-verdict-repeatable",
+		"non-trivial = the power-levels event changes at least two entries across its users / events / notifications maps (so that the order in which the rules visit them could matter). distinct = distinct Case JSON",
+		1500, 100000, 8, c09GenPL, c09CheckPL)
 	vfRapid("C09/verdict-is-a-function-of-needed-state",
 		"non-trivial = the history checked through the shared checker contains a membership event under a restricted / knock_restricted join rule, or the create / power-levels / join-rules / member state changes between two checks, and the final verdict is not decided by 'sender not in room'. distinct = distinct Case JSON",
 		2000, 200000, 16, c09Gen, c09Check)
